@@ -4,6 +4,7 @@ import (
 	"encoding/base64"
 	"encoding/hex"
 	"fmt"
+	"sort"
 	"strings"
 
 	sdk "github.com/cosmos/cosmos-sdk/types"
@@ -310,6 +311,12 @@ func (g *Gen) boundaryTable() []MsgSpec {
 	mut(func(d *DocSpec) { d.CapInv = []RelSpec{{Unset: true}} })
 	mut(func(d *DocSpec) { d.CapDel = []RelSpec{{Ref: good + "#key1"}, {Unset: true}} })
 	mut(func(d *DocSpec) { d.Auth[0].Ref = good + "#missing" })
+	// a plain reference to a method that exists only embedded in another relationship (earlier list, same list, later list)
+	emb := func() *VMSpec { return &VMSpec{Id: good + "#emb", Type: "EcdsaSecp256k1VerificationKey2019", Controller: good, Key: k} }
+	mut(func(d *DocSpec) { d.Assertion = []RelSpec{{VM: emb()}}; d.KeyAgree = []RelSpec{{Ref: good + "#emb"}} })
+	mut(func(d *DocSpec) { d.Auth = append(d.Auth, RelSpec{VM: emb()}); d.CapDel = []RelSpec{{Ref: good + "#emb"}} })
+	mut(func(d *DocSpec) { d.CapInv = []RelSpec{{VM: emb()}, {Ref: good + "#emb"}} })
+	mut(func(d *DocSpec) { d.Assertion = []RelSpec{{Ref: good + "#emb"}}; d.CapDel = []RelSpec{{VM: emb()}} })
 	mut(func(d *DocSpec) { d.Assertion = []RelSpec{{Ref: good + "#missing"}} })
 	mut(func(d *DocSpec) { d.KeyAgree = []RelSpec{{Ref: "nonsense"}} })
 	mut(func(d *DocSpec) { d.CapInv = []RelSpec{{VM: &VMSpec{Id: good + "#ded", Type: "", Key: k}}} })
@@ -337,6 +344,50 @@ func (g *Gen) plainDoc(did string, k int) *DocSpec {
 }
 
 var boundaryCache []MsgSpec
+
+// famMultiDefect: a message that breaks several documented limits at once. Which of them a node reports (the error
+// code is part of the transaction result every replica must agree on) has to be a function of the message alone.
+func (g *Gen) famMultiDefect() {
+	r := g.rng
+	o, w := g.addr(r.Intn(4)), g.addr(4+r.Intn(4))
+	rep := strings.Repeat
+	badTopic := []string{"", "bad topic!", rep("t", 71), "é"}[r.Intn(4)]
+	badAddr := []string{"", "garbage", "cosmos1qqqqqqqqqqqqqqqqqqqqqqqqqqqqqqqqnrql8a", o[:len(o)-1]}[r.Intn(4)]
+	var m MsgSpec
+	switch r.Intn(8) {
+	case 0:
+		m = M("aol.AddWriter", "topic", badTopic, "owner", o, "writer", w, "moniker", rep("m", 71), "desc", rep("d", 5001))
+	case 1:
+		m = M("aol.AddWriter", "topic", badTopic, "owner", badAddr, "writer", badAddr, "moniker", rep("m", 71), "desc", "")
+	case 2:
+		m = M("aol.DeleteWriter", "topic", badTopic, "owner", badAddr, "writer", badAddr)
+	case 3:
+		m = M("aol.CreateTopic", "topic", badTopic, "owner", badAddr, "desc", rep("d", 5001))
+	case 4:
+		m = g.recordSpec(badAddr, badTopic, badAddr, "")
+		m.Key = hex.EncodeToString([]byte(rep("k", 71)))
+	case 5:
+		m = M("pnft.CreateDenom", "id", "", "name", "", "symbol", "", "creator", badAddr)
+	case 6:
+		m = M("pnft.Mint", "denom", "", "id", "", "name", "", "creator", badAddr)
+	case 7:
+		m = M("pnft.Transfer", "denom", "", "id", "", "sender", badAddr, "receiver", badAddr)
+	}
+	// a random subset of the defects is repaired again, so that every pair of checks meets in some message
+	fix := map[string]string{"topic": "ok-topic", "owner": o, "writer": w, "moniker": "m", "desc": "d", "id": "okid", "denom": "okdn", "name": "n", "symbol": "s", "creator": o, "sender": o, "receiver": w}
+	keys := make([]string, 0, len(m.F))
+	for k := range m.F {
+		keys = append(keys, k)
+	}
+	sort.Strings(keys)
+	for _, k := range keys {
+		if v, ok := fix[k]; ok && r.Chance(0.3) {
+			m.F[k] = v
+		}
+	}
+	// unsigned-by-construction addresses cannot sign: the transaction is signed by an ordinary account
+	g.emit(&TxSpec{Msgs: []MsgSpec{m}, Signers: []int{r.Intn(4)}})
+}
 
 func (g *Gen) famBoundary() {
 	tbl := g.boundaryTable()
